@@ -278,7 +278,12 @@ func (w WALBatch) replay(fs *fileStore) error {
 	// CREATE TABLE adds its catalog rows without logging them: when the crash
 	// hit its flush after the pages but before the header, those rows carry
 	// ids beyond the header's counter and no log record mentions them.
-	raiseLastKeyToCatalog(fs)
+	// ... and their pages carry LSNs beyond the header's counter: statements
+	// after the recovery must not be logged with LSNs at or below those stamps,
+	// or the next recovery takes their records for already applied.
+	if lsn := raiseLastKeyToCatalog(fs); lsn >= headerNextLSN {
+		headerNextLSN = lsn + 1
+	}
 	for _, row := range w {
 		if row.WALOp == OpInsert && row.cellID > fs.lastKey {
 			fs.lastKey = row.cellID
@@ -330,8 +335,9 @@ func (w WALBatch) replay(fs *fileStore) error {
 // raiseLastKeyToCatalog makes sure the row id counter covers the newest row
 // of the two catalog tables (row ids ascend, so that is the last cell of the
 // right-most leaf). A catalog that cannot be read is left to the statements
-// that need it.
-func raiseLastKeyToCatalog(fs *fileStore) {
+// that need it. It returns the newest LSN stamped on the pages it walked
+// (root to right-most leaf of each catalog table).
+func raiseLastKeyToCatalog(fs *fileStore) (maxLSN uint64) {
 	if fs.pageTableRoot == 0 {
 		return
 	}
@@ -343,13 +349,23 @@ func raiseLastKeyToCatalog(fs *fileStore) {
 	for _, root := range roots {
 		pg, err := fs.fetch(root)
 		for err == nil && !pg.isLeaf {
+			if pg.getLastLSN() > maxLSN {
+				maxLSN = pg.getLastLSN()
+			}
 			pg, err = fs.fetch(pg.rightOffset)
 		}
-		if err != nil || len(pg.offsets) == 0 {
+		if err != nil {
+			continue
+		}
+		if pg.getLastLSN() > maxLSN {
+			maxLSN = pg.getLastLSN()
+		}
+		if len(pg.offsets) == 0 {
 			continue
 		}
 		if key := pg.leafCells[pg.offsets[len(pg.offsets)-1]].key; key > fs.lastKey {
 			fs.lastKey = key
 		}
 	}
+	return maxLSN
 }
